@@ -452,6 +452,15 @@ func enumJSConv(tier string, yield func(*scen) bool) {
 				if !yield(sc) {
 					return
 				}
+				// the same struct below the root: as a field, a list element and a map value
+				nroot := tbin.StructS(tbin.SField{ID: 1, Name: "in", S: st}, tbin.SField{ID: 2, Name: "l", S: tbin.ListS(st)}, tbin.SField{ID: 3, Name: "m", S: tbin.MapS(tbin.Sc(tbin.STRING), st)})
+				np := jt.NewProg("jsconv-nested-"+t.String(), nroot)
+				np.Set(st, 1, jt.FX{JSConv: true})
+				mv := &tbin.Val{T: tbin.MAP, KT: tbin.STRING, ET: tbin.STRUCT, K: []*tbin.Val{tbin.Str("k")}, L: []*tbin.Val{tbin.Clone(v)}}
+				nv := tbin.Struct(tbin.F(1, tbin.Clone(v)), tbin.F(2, tbin.List(tbin.STRUCT, tbin.Clone(v))), tbin.F(3, mv))
+				if !yield(&scen{op: "jsconv", trigger: tr + "/below-root", prog: np, copts: os.O, optName: os.Name, val: nv, shape: nroot, ks: ksFor(tier, true)}) {
+					return
+				}
 			}
 		}
 	}
